@@ -516,6 +516,14 @@ theorem ci_ascii_spec (inp : Input) (lit : Str) (pos : Nat) :
         obtain ⟨d, hd, hv⟩ := hall (j + 1) (by omega)
         exact ⟨d, by rw [← hd]; congr 1; omega, by simpa using hv⟩
 
+/-- known finding `ci-nonascii-fold` (known_findings.txt): by pest's definition — ASCII folding, which
+    is what this model and the squashed class implement — `^"k"` rejects U+212A KELVIN SIGN and `^"s"`
+    rejects U+017F; the interpreter's and the generated code's `re.I` accept them.  Outside the
+    property's clause ("ASCII case variants of ASCII input"), recorded because the modes differ there. -/
+theorem finding_ci_nonascii_fold :
+    startsWithAtCI #[8490] [107] 0 = false ∧ L1.classAccepts [.lit [107] true] 8490 = false ∧
+    startsWithAtCI #[383] [115] 0 = false := by decide
+
 /-- `CIString.parse` and the code `CIString.generate` emits succeed on the same inputs -/
 theorem ci_modes_agree (g : Grammar) (inp : Input) (k : Nat) (rec : Sem1) (recG : SemG)
     (s : Str) (c : PState) (ps : List Pair) :
